@@ -247,6 +247,19 @@ func (t *ktr) kernelCall(c *ast.CallExpr) (string, *kernelOut, bool) {
 		if a == nil {
 			t.fail(c, "call of %s: no actual for a parameterised read", k.spec.goName)
 		}
+		if id, isID := unparen(a).(*ast.Ident); isID {
+			if name, isVar := t.vars[t.info.Uses[id]]; isVar && t.names[name].k == kElem {
+				// the actual is an element of a parameterised slice: the callee's read `x.f` /
+				// `x.M()` is the projection of the element
+				member := strings.TrimSuffix(strings.TrimPrefix(o.suffix, "."), "()")
+				ps, _, ok := t.projection(a, member, c)
+				if !ok {
+					t.fail(c, "call of %s: `%s%s` is not a projection of the element `%s`", k.spec.goName, id.Name, o.suffix, id.Name)
+				}
+				s += " " + ps
+				continue
+			}
+		}
 		s += " " + t.resolveText(exprStr(a)+o.suffix, c)
 	}
 	return s + ")", k, true
